@@ -110,6 +110,10 @@ func (r *addrsRecord) clean(now time.Time) (chgd bool) {
 	}
 
 	r.Addrs = removeExpired(r.Addrs, nowUnix)
+	if len(r.Addrs) != addrsLen {
+		// remember that the stored copy is outdated in case the caller doesn't flush.
+		r.dirty = true
+	}
 	if len(r.Addrs) == 0 {
 		// all addresses are gone; the signed peer record goes with them, so
 		// that it is not returned again if unrelated addresses are added later.
